@@ -153,7 +153,10 @@ fn locale_of(i: usize) -> Locale {
         "ru" => Locale::ru,
         "pt" => Locale::pt,
         "pt-PT" => Locale::pt_PT,
-        _ => Locale::th,
+        "th" => Locale::th,
+        "es" => Locale::es,
+        "es-419" => Locale::es_419,
+        _ => Locale::es_MX,
     }
 }
 
@@ -333,6 +336,16 @@ fn exec_op(op: &Op, vals: &[Val]) -> String {
     }
 }
 
+/// Which declaration a key shows for a locale: its own; `es`'s for the locales that inherit from `es`; else the default's.
+fn declared(idx: usize, loc: &'static str) -> (&'static str, Spec) {
+    let k = &KEYS[idx];
+    match k.es_spec {
+        Some(es) if ["es", "es-419", "es-MX"].contains(&loc) => ("es", es),
+        _ if k.only_in_default => ("en", k.spec),
+        _ => (loc, k.spec),
+    }
+}
+
 /// Reference values are a pure function of (spec, locale, value): memoised across runs.
 static REF_MEMO: Mutex<BTreeMap<String, Result<String, String>>> = Mutex::new(BTreeMap::new());
 
@@ -344,17 +357,17 @@ pub fn expected(op: &Op, vals: &[Val]) -> Result<String, String> {
     let loc = LOCALES[op.locale];
     let r = match op.route {
         // a key declared only in the default locale shows the default locale's text, formatted for the rendered locale
-        Route::KeyString => fixture::reference(KEYS[op.idx].spec, loc, &vals[op.val]).map(|s| format!("{}|{s}", if KEYS[op.idx].only_in_default { "en" } else { loc })),
+        Route::KeyString => fixture::reference(declared(op.idx, loc).1, loc, &vals[op.val]).map(|s| format!("{}|{s}", declared(op.idx, loc).0)),
         // tachys renders an empty dynamic text node as a single space (so that the node exists for hydration):
         // that is Leptos' HTML rendering, not the formatter's output
         Route::KeyView => {
-            let tag = if KEYS[op.idx].only_in_default { "en" } else { loc };
-            fixture::reference(KEYS[op.idx].spec, loc, &vals[op.val]).map(|s| if s.is_empty() { format!("{tag}| ") } else { format!("{tag}|{s}") })
+            let tag = declared(op.idx, loc).0;
+            fixture::reference(declared(op.idx, loc).1, loc, &vals[op.val]).map(|s| if s.is_empty() { format!("{tag}| ") } else { format!("{tag}|{s}") })
         }
-        Route::KeyDisplay => fixture::reference(KEYS[op.idx].spec, loc, &vals[op.val]).map(|s| format!("{}|{s}", if KEYS[op.idx].only_in_default { "en" } else { loc })),
+        Route::KeyDisplay => fixture::reference(declared(op.idx, loc).1, loc, &vals[op.val]).map(|s| format!("{}|{s}", declared(op.idx, loc).0)),
         Route::KeyF64 => {
             let fd = fixture::f64_to_fixed(fixture::F64S[op.val % fixture::F64S.len()]);
-            fixture::reference_with_decimal(KEYS[op.idx].spec, loc, &fd).map(|s| format!("{}|{s}", if KEYS[op.idx].only_in_default { "en" } else { loc }))
+            fixture::reference_with_decimal(declared(op.idx, loc).1, loc, &fd).map(|s| format!("{}|{s}", declared(op.idx, loc).0))
         }
         Route::PluralMacro => fixture::reference_plural_category(op.idx == 1, loc, COUNTS[op.val % COUNTS.len()]).map(String::from),
         Route::Site => fixture::reference(SITES[op.idx].spec, loc, &vals[op.val]),
@@ -369,7 +382,7 @@ pub fn expected(op: &Op, vals: &[Val]) -> Result<String, String> {
         Route::KeyTyped => {
             let dec = fixture_table::TYPED[op.val % fixture_table::TYPED.len()].1;
             let fd: fixed_decimal::FixedDecimal = dec.parse().expect("hand-written decimal");
-            fixture::reference_with_decimal(KEYS[op.idx].spec, loc, &fd).map(|s| format!("{}|{s}", if KEYS[op.idx].only_in_default { "en" } else { loc }))
+            fixture::reference_with_decimal(declared(op.idx, loc).1, loc, &fd).map(|s| format!("{}|{s}", declared(op.idx, loc).0))
         }
         Route::CtxPlural => {
             let c = COUNTS[op.val % COUNTS.len()];
